@@ -335,7 +335,7 @@ def compare_segments(segments, workdir, dump=False, release=False, op_timeout=20
                     continue
                 if got == 'ok':
                     fault_pending = False
-            if kind in ('snap', 'cpdir') and fault_pending:
+            if kind in ('snap', 'cpdir', 'dirty') and fault_pending:
                 continue
             if not same(op, got, m):
                 res.update(ok=False, index=gi, op=op, impl=got, model=m)
